@@ -744,8 +744,8 @@ def weave_file(srcdir, fcon, out_map, problems):
         header = hdr or ('impl %s' % tname)
         appended.append(('::vstd::prelude::verus!{ %s {\n%s\n} }\n' % (header, text[it.start:it.end].rstrip()), None))
     for head, cname in fcon.constwraps:
-        if head[0].islower():
-            its = [it for it in sf.items if it.kind == 'const' and it.name == cname and it.impl is None and it.modpath == head.split('::')]
+        if head == '' or head[0].islower():
+            its = [it for it in sf.items if it.kind == 'const' and it.name == cname and it.impl is None and it.modpath == ([] if head == '' else head.split('::'))]
         else:
             its = sf.find_consts(head, cname)
         if len(its) != 1:
